@@ -241,7 +241,10 @@ def main(mod, argv=None):
     for e in events:
         if e['kind'] in ('violation', 'oob', 'uninit', 'race'):
             k = mod.finding_key(e) if hasattr(mod, 'finding_key') else e['key']
-            viol.setdefault(k, e)
+            lst = viol.setdefault(k, [])
+            # a few candidate witnesses per finding (from different items first): the first one that replays on the real code counts
+            if len(lst) < 4 and (len(lst) < 2 or all(e.get('item') != x.get('item') for x in lst)):
+                lst.append(e)
     inconcl = [e for e in events if e['kind'] == 'inconclusive']
     # A deciding query the solver could not settle is never a pass.  It may still hide a real violation
     # (satisfiable nonlinear queries are where z3 gives up): hand the obligation to the check's replay,
@@ -262,22 +265,29 @@ def main(mod, argv=None):
                 rep, detail = None, str(ex)
             if rep:
                 e2 = dict(e, kind='violation', model=e.get('model', {}), what=e['what'] + ' [solver: unknown; violation found by the replay on the real code]')
-                viol.setdefault((mod.finding_key(e2) if hasattr(mod, 'finding_key') else e2['key']), e2)
+                viol.setdefault((mod.finding_key(e2) if hasattr(mod, 'finding_key') else e2['key']), []).insert(0, e2)
             else:
                 still.append(e)
         inconcl = still
     status = 0
     nviol = 0
     lines = []
-    for k, e in sorted(viol.items()):
+    for k, cands in sorted(viol.items()):
         path = os.path.join(VERIF, 'replays', pid, slug(k) + '.py')
-        try:
-            reproduced, detail = mod.replay(e, path)
-        except Exception as ex:
-            reproduced, detail = None, f'replay construction failed: {ex}\n{traceback.format_exc()}'
+        reproduced, detail, e = None, '', cands[0]
+        for cand in cands:
+            try:
+                rep, det = mod.replay(cand, path)
+            except Exception as ex:
+                rep, det = None, f'replay construction failed: {ex}\n{traceback.format_exc()}'
+            if rep:
+                reproduced, detail, e = rep, det, cand
+                break
+            if reproduced is None:
+                reproduced, detail, e = rep, det, cand
         if reproduced is None or reproduced is False:
-            lines.append(f'HARNESS-ERROR property={pid} counterexample for "{k}" ({e["what"]}) did not reproduce on the real code: '
-                         f'{str(detail)[-1500:]}\n  item={e.get("item")} model={json.dumps(e.get("model"))[:1500]}')
+            lines.append(f'HARNESS-ERROR property={pid} counterexample for "{k}" ({e["what"]}) did not reproduce on the real code '
+                         f'({len(cands)} witness(es) tried): {str(detail)[-1500:]}\n  item={e.get("item")} model={json.dumps(e.get("model"))[:1500]}')
             status = max(status, 2)
             continue
         kf = [f for f in known.get('findings', []) if f['property'] == pid and f['key'] == k]
